@@ -119,6 +119,18 @@ Definition lex_tq (s : str) : option (str * str) :=
 (* what CPython reads at a position where a string literal starts *)
 Definition lex_str (s : str) : option (str * str) := if starts3 s then lex_tq s else lex_dq s.
 
+(* '...' literals: the lexer treats the two quote characters symmetrically, so a single-quoted literal is read by
+   exchanging the quote characters, reading a double-quoted literal, and exchanging back (validated against CPython like
+   the rest; a literal starting with three single quotes is not modelled: None) *)
+Definition swapq (c : N) : N := if c =? 34 then 39 else if c =? 39 then 34 else c.
+Definition lex_sq (s : str) : option (str * str) :=
+  match lex_dq (map swapq s) with
+  | Some (v, r) => Some (map swapq v, map swapq r)
+  | None => None
+  end.
+Definition lex_lit (s : str) : option (str * str) :=
+  match s with c :: _ => if c =? 39 then lex_sq s else lex_str s | [] => None end.
+
 (* comment: runs to the end of the PHYSICAL line; the tokenizer ends a line at LF or CR only
    (FF, VT, FS/GS/RS, NEL, LS, PS are ordinary comment characters) and rejects NUL *)
 Definition line_break (c : N) : bool := (c =? 10) || (c =? 13).
@@ -164,6 +176,35 @@ Definition json_esc1 (c : N) : str :=
   else u_esc (55296 + (c - 65536) / 1024) ++ u_esc (56320 + (c - 65536) mod 1024).
 Definition json_esc (t : str) : str := flat_map json_esc1 t.
 
+(* json.dumps(s, ensure_ascii=False)[1:-1]: only the quote, the backslash and the C0 controls are escaped *)
+Definition json_raw1 (c : N) : str :=
+  if c =? 34 then [92; 34] else if c =? 92 then [92; 92]
+  else if c =? 10 then [92; 110] else if c =? 13 then [92; 114] else if c =? 9 then [92; 116]
+  else if c =? 8 then [92; 98] else if c =? 12 then [92; 102]
+  else if c <? 32 then u_esc c else [c].
+Definition json_raw (t : str) : str := flat_map json_raw1 t.
+
+(* repr(s) of a str (unicodeobject.c unicode_repr): single quotes unless the text has a single and no double quote;
+   backslash, the chosen quote, TAB LF CR escaped; other C0 controls and DEL as \xhh; printable characters raw;
+   non-printable non-ASCII as \xhh / \uXXXX / \UXXXXXXXX.  [pr] = str.isprintable on NON-ASCII code points (Unicode
+   data base: an oracle, instantiated from Python in the correspondence run; never consulted below 128). *)
+Definition hex2 (c : N) : str := [hexdig (c / 16); hexdig (c mod 16)].
+Definition x_esc (c : N) : str := 92 :: 120 :: hex2 c.
+Definition U_esc (c : N) : str := 92 :: 85 :: hex4 (c / 65536) ++ hex4 (c mod 65536).
+Definition repr_esc1 (pr : N -> bool) (q c : N) : str :=
+  if c =? 92 then [92; 92] else if c =? q then [92; q]
+  else if c =? 9 then [92; 116] else if c =? 10 then [92; 110] else if c =? 13 then [92; 114]
+  else if (c <? 32) || (c =? 127) then x_esc c
+  else if c <? 127 then [c]
+  else if pr c then [c]
+  else if c <? 256 then x_esc c else if c <? 65536 then u_esc c else U_esc c.
+Definition repr_quote (t : str) : N := if existsb (N.eqb 39) t && negb (existsb (N.eqb 34) t) then 34 else 39.
+Definition py_repr (pr : N -> bool) (t : str) : str :=
+  let q := repr_quote t in q :: flat_map (repr_esc1 pr q) t ++ [q].
+(* Unicode scalar values: what a UTF-8 encoded document can contain *)
+Definition scalar (t : str) : bool := forallb (fun c => negb (is_surrogate c) && (c <=? 1114111)) t.
+Definition in_range (t : str) : bool := forallb (fun c => c <=? 1114111) t.
+
 (* CodeWriter.write_block = str.splitlines() + one write_line per piece: every character str.splitlines()
    breaks at (LF CR VT FF FS GS RS NEL LS PS; CR LF counts once) becomes LF + the current indentation.
    Endpoint method code is passed through it once, inside the class (indentation = 4 spaces). *)
@@ -183,20 +224,28 @@ Fixpoint reflow (ind s : str) : str :=
       else c :: reflow ind r
   end.
 Definition ind4 : str := [32; 32; 32; 32].
+(* the assumption on the oracle actually used: printable non-ASCII characters are not surrogates / out of range / line
+   separators (NEL, LS, PS are not printable) *)
+Definition pr_ok (pr : N -> bool) : Prop :=
+  forall c, pr c = true -> 128 <= c /\ bad_raw c = false /\ is_break c = false.
 
 (* ------------------------------------------------------------------ the rendering sites
    (ids are those of the inventory Gen/T_C15.v; file:line there) *)
-(* value-carrying `…` sites with NO escaping: f'`{x}`' *)
-Definition site_enum_value (t : str) : str := dq t.     (* python_construct_renderer.render_enum  NAME = `value` *)
-Definition site_meta_key (t : str) : str := dq t.       (* render_dataclass Meta key maps (both directions) *)
-Definition site_disc_prop (t : str) : str := dq t.      (* render_alias property_name: str = `…` *)
-Definition site_disc_value (t : str) : str := dq t.     (* render_alias _mapping_data tuples / get_mapping keys *)
-(* the same, then CodeWriter.write_block in endpoint_visitor *)
-Definition site_query_key (t : str) : str := reflow ind4 (dq t).    (* url_args_generator query dict keys *)
-Definition site_header_key (t : str) : str := reflow ind4 (dq t).   (* url_args_generator header dict keys *)
-Definition site_media_type (t : str) : str := reflow ind4 (dq t).   (* overload_generator Literal[…] = … ; response handler *)
-(* the one escaped site: dataclass_generator._get_field_default *)
-Definition site_default (t : str) : str := dq (json_esc t).
+(* value-carrying sites of the model files: json.dumps(x, ensure_ascii=False)  [after the fixes of F15a/b/i/h] *)
+Definition site_enum_value (t : str) : str := dq (json_raw t).   (* python_construct_renderer.render_enum  NAME = <literal> *)
+Definition site_meta_key (t : str) : str := dq (json_raw t).     (* render_dataclass Meta key maps (both directions) *)
+Definition site_disc_prop (t : str) : str := dq (json_raw t).    (* render_alias property_name: str = <literal> *)
+Definition site_disc_value (t : str) : str := dq (json_raw t).   (* render_alias _mapping_data tuples / get_mapping keys *)
+Definition site_default (t : str) : str := dq (json_raw t).      (* dataclass_generator._get_field_default (string default) *)
+(* value-carrying sites of the endpoint files: code_writer.python_string_literal =
+   QUOTE + x.encode(unicode_escape).decode(ascii).replace(QUOTE, backslash QUOTE) + QUOTE, i.e. the escapes of repr with
+   the double quote and nothing printable above ASCII; then CodeWriter.write_block in endpoint_visitor  [fixes of F15f/j] *)
+Definition ascii_lit (t : str) : str := dq (flat_map (repr_esc1 (fun _ => false) 34) t).
+Definition site_query_key (t : str) : str := reflow ind4 (ascii_lit t).    (* url_args_generator query dict keys *)
+Definition site_header_key (t : str) : str := reflow ind4 (ascii_lit t).   (* url_args_generator header / cookie dict keys *)
+Definition site_media_type (t : str) : str := reflow ind4 (ascii_lit t).   (* overload_generator Literal[…] = … ; response handler *)
+(* url_args_generator: Content-Type of a raw bytes body, rendered with !r (repr), then write_block *)
+Definition site_media_repr (pr : N -> bool) (t : str) : str := reflow ind4 (py_repr pr t).
 
 (* dataclass_generator._get_field_default, property whose schema is a named enum:
    f`{ps.name}.{str(default).upper().replace(-, _).replace(space, _)}` - the text becomes an ATTRIBUTE NAME, unquoted.
@@ -259,8 +308,9 @@ Definition site_docwriter_rel (t out : str) : bool :=
   | _ => false
   end.
 
-(* comment site: render_dataclass  line += f`  # {desc.replace('\n', ' ')}` *)
-Definition site_field_comment (t : str) : str := 32 :: 32 :: 35 :: 32 :: nl_to_sp t.
+(* comment site: render_dataclass  line += f`  # {desc.replace(LF, space).replace(CR, space).replace(NUL, space)}`  [fix of F15e] *)
+Definition comment_clean (t : str) : str := map (fun c => if (c =? 10) || (c =? 13) || (c =? 0) then 32 else c) t.
+Definition site_field_comment (t : str) : str := 32 :: 32 :: 35 :: 32 :: comment_clean t.
 
 (* ------------------------------------------------------------------ the property, per site kind *)
 Definition hd_not_quote (rest : str) : Prop := match rest with c :: _ => c <> 34 | [] => True end.
